@@ -9,11 +9,11 @@ git -C /repo worktree add -q --detach "$BASE/repo" HEAD || exit 2
 if ! git -C "$BASE/repo" apply "/verif/seeded/$ID/patch.diff"; then
   echo "PATCH-DOES-NOT-APPLY $ID"; git -C /repo worktree remove --force "$BASE/repo"; rm -rf "$BASE"; exit 3
 fi
-cp -r /verif/harness "$BASE/harness"; rm -rf "$BASE/harness/target"
+cp -r "${VERIF_SNAPSHOT:-/verif}/harness" "$BASE/harness"; rm -rf "$BASE/harness/target"
 sed -i "s#path = \"/repo\"#path = \"$BASE/repo\"#" "$BASE/harness/Cargo.toml"
 export CASM_REPO="$BASE/repo" VERIF_HARNESS="$BASE/harness" VERIF_TARGET="$BASE/target" VERIF_EVIDENCE="$BASE/evidence" VERIF_REPLAYS="$BASE/replays"
 for P in "$@"; do
-  OUT=$(cd /verif && ./check "$P" "$TIER" 2>&1); RC=$?
+  OUT=$(cd "${VERIF_SNAPSHOT:-/verif}" && ./check "$P" "$TIER" 2>&1); RC=$?
   NV=$(echo "$OUT" | grep -c '^VIOLATION')
   echo "MUTANT $ID check=$P tier=$TIER rc=$RC violations=$NV :: $(echo "$OUT" | grep -m1 -A1 '^VIOLATION' | tr '\n' ' ' | cut -c1-300)"
   [ "$RC" = 2 ] && echo "$OUT" | grep INCONCLUSIVE | head -3
